@@ -138,8 +138,50 @@ def run(tier, seed, escalate=False):
         tier = "thorough"
     ss = streams(tier, seed)
     r = correspond(ss, hooks=[LabelOracle(), ConsistencyOracle()])
-    return finish("C02", r, ss, RULE, clause_prefix=("C02",),
-                  nontrivial=lambda ops: len(ops[0]["dims"]) >= 2 and len(ops) >= 2)
+    res = finish("C02", r, ss, RULE, clause_prefix=("C02",),
+                 nontrivial=lambda ops: len(ops[0]["dims"]) >= 2 and len(ops) >= 2)
+    f2, n2 = sort_with_repeated_coordinates(seed)
+    res["impl_failures"] += [f for f in f2 if f["key"] not in {g["key"] for g in res["impl_failures"]}]
+    res["evaluations"] += n2
+    return res
+
+
+def sort_with_repeated_coordinates(seed):
+    """sort(dim) on an axis whose coordinate holds REPEATED values (two concatenated scans sharing points): labels are not
+    unique there, so the clause is stated on slices — the result's coordinate is the sorted input coordinate (same length)
+    and the multiset of (coordinate, slice) pairs is unchanged: nothing dropped, nothing duplicated"""
+    import numpy as np, warnings
+    from common import dnp
+    rng = random.Random(seed * 7919 + 202)
+    fails, n_eval = [], 0
+    for nd in (1, 2, 3):
+        for k in range(nd):
+            for _ in range(3):
+                shape = [rng.randint(2, 4) for _ in range(nd)]
+                shape[k] = rng.randint(4, 7)
+                c = [float(rng.randint(0, 3)) for _ in range(shape[k])]
+                c[rng.randrange(1, shape[k])] = c[0]            # at least one repeated value
+                vals = np.arange(1.0, float(np.prod(shape)) + 1).reshape(shape)
+                dims = ["d%d" % i for i in range(nd)]
+                coords = [np.array(c) if i == k else np.arange(float(s_)) for i, s_ in enumerate(shape)]
+                d = dnp.DNPData(vals.copy(), list(dims), [x.copy() for x in coords])
+                with warnings.catch_warnings():
+                    warnings.simplefilter("ignore")
+                    try:
+                        d.sort(dims[k])
+                    except Exception:  # noqa: BLE001
+                        continue
+                n_eval += 1
+                got_c = np.asarray(d.coords[dims[k]], dtype=float)
+                got = np.moveaxis(np.asarray(d.values), list(d.dims).index(dims[k]), 0)
+                src = np.moveaxis(vals, k, 0)
+                pairs = lambda cc, vv: sorted((float(a), tuple(np.ravel(b).tolist())) for a, b in zip(cc, vv))
+                ok = got_c.shape == (shape[k],) and np.array_equal(got_c, np.sort(np.array(c))) and \
+                    got.shape == src.shape and pairs(got_c, got) == pairs(c, src)
+                if not ok and not fails:
+                    key = "C02:elements-dropped-or-duplicated:sort:repeated-coordinates"
+                    fails.append({"key": key, "clause": key, "ops": [{"shape": shape, "dim_pos": k, "coord": c}]})
+    return fails, n_eval
 
 
 def replay(rp):
